@@ -5,6 +5,7 @@ import KyupyVerif.Proofs.Capture
 import KyupyVerif.Proofs.MapSound
 import KyupyVerif.Props.C08
 import KyupyVerif.Proofs.Grid
+import KyupyVerif.Proofs.LevelMem
 /-! # C07 — the published level partition is a valid parallel schedule
 
 Signal level (all op programs — theorems): ops that are pairwise independent may run in any order
@@ -21,7 +22,20 @@ the signal-level lemma, not as a statement about the code. Memory level: `thread
 memory incl. stale cells) is proved generically; `memory_any_schedule`: when the map certificate of C08 accepts the
 REAL tables, every duplicate-free execution order that respects `level_starts` leaves the same values in every observed
 memory region (whatever the value domain and storage discipline) — and `memory_any_schedule_all_circuits`: for the tables the `SimOps` model builds
-the certificate is a theorem (`C08.simops_map_accepted`), so nothing is per instance except the tie model = code. Accumulated activity is order independent (`abuf_any_order`). -/
+the certificate is a theorem (`C08.simops_map_accepted`), so nothing is per instance except the tie model = code. Accumulated activity is order independent (`abuf_any_order`).
+**(sim, op) threads of a level in any order, on memory (audit-2 finding 3):** `level_threads_any_order` — for a table accepted by
+the map certificate, `c_caps_min ≥ 2`, a row range inside one level (`oneLevelB`, decidable; `oneLevelB_of_starts`): every
+permutation of the work items of the level leaves, on every lane, the same accumulators and the same memory OUTSIDE the two
+scratch regions as `level_eval_cpu` (model `WaveIO.cpuLevel` with the evaluator `evWave` built from the waveform model —
+NOT yet run against the raw arrays by a driver command, audit-2 finding 2; the oracle of this check compares the real `c`
+outside the scratch rows, `s` and `abuf` under really permuted thread orders). Inside the scratch regions the orders differ
+(several gates with unconnected outputs of one level write `tmp_idx`): nothing is claimed there, and `no_row_reads_scratch`
+shows no row reads them. The footprint conditions (`MapIn.levelsIndepB`) are a THEOREM from the certificate
+(`level_conditions_of_certificate`) and are additionally evaluated on the real tables of every case (driver `opsindep`, tag
+`hyp:opsIndep:*`); `level_threads_any_order_all_circuits` discharges the certificate for the `SimOps` model's tables, and
+`level_threads_any_order_every_level` states it for level `i` of the model's `level_starts` with no row-range hypothesis left. The former
+`C06.level_any_thread_order_wave` (whole memory, hypothesis `opsIndepB`, false for two scratch writers in a level) is kept as
+`C06.level_any_thread_order_wave_exact` for levels with at most one scratch writer. -/
 namespace KV.C07
 open KV KV.Sig
 
@@ -186,6 +200,138 @@ theorem levels_contiguous (st0 : LSt) (h0 : LInv st0) (a b : List Op) (w o : Op)
 theorem threads_any_order {C} (l l' : List (Perm.Th C)) (hp : l.Perm l')
     (hi : ∀ s ∈ l, ∀ t ∈ l, s ≠ t → Perm.indep s t) (hn : l.Nodup) (m : Perm.Mem C) :
     Perm.runL l m = Perm.runL l' m := Perm.runL_perm l l' hp hi hn m
+
+/-! ## (simulation, operation) threads of a level in ANY order, on memory (audit-2 finding 3)
+
+Several rows of one level may write the scratch slot (`tmp_idx`: every gate with an unconnected output, sim.py:198), so the
+threads of a level do not commute on the scratch regions and the footprint condition `opsIndepB` of the former
+`C06.level_any_thread_order_wave` is false on such levels. The statements below are about everything EXCEPT the scratch
+regions, and their footprint conditions are CONSEQUENCES of the map certificate. -/
+section Threads
+open KV.WaveIO
+
+/-- **what the map certificate says about the rows of one level** (`MapIn.levelsIndepB`, `Model/LevelMem.lean`; also evaluated
+    by the driver command `opsindep` on the real `ops`, `level_starts`, `c_locs`, `c_caps` of every generated case): whenever
+    `MapIn.check` accepts a table, (a) no operand region of any row meets a scratch region — no row reads scratch memory —,
+    (b) for two different rows `a`, `b` of the same level: unless `a` writes a scratch slot, its output region is disjoint from
+    every operand region of `b` and, unless `b` writes a scratch slot, from the output region of `b`. -/
+theorem level_conditions_of_certificate (p : MapIn) (hc : p.check = none) : p.levelsIndepB = true :=
+  MapSound.levelsIndepB_of_check p hc
+
+/-- … in particular **no row reads a scratch region**: an address inside an operand region of any row of an accepted table lies
+    in neither scratch region (the regions of operands are signal regions, `MapSound.Good.junkSep`) -/
+theorem no_row_reads_scratch (p : MapIn) (hc : p.check = none) (k : Nat) (o : OpRow) (hk : p.ops[k]? = some o) (x : Int)
+    (hx : ∃ i ∈ o.ins, inRegion p.loc p.cap i x) : ¬ scrAddr p.loc p.cap p.ix.tmp p.ix.tmp2 x :=
+  rowScrFreeB_sound (MapSound.rowScrFree_of_good (MapSound.good_of_check p hc) hk) x hx
+
+/-- **`level_threads_any_order`: a level of an accepted table under an ARBITRARY order of its (sim, op) threads.** Table `p`
+    accepted by the map certificate (C08; evaluated on the real tables), `c_caps_min ≥ 2` (WaveSim: 4), rows `op_start … op_stop - 1`
+    inside the program and inside ONE level of `level_starts` (`oneLevelB`; holds for every pair `(level_starts[i], level_stops[i])`,
+    `oneLevelB_of_starts`), accumulation controls arbitrary, the evaluator built from the waveform model with the table's
+    `c_locs` / `c_caps` and any delays: EVERY list of threads that is a permutation of the work items — every interleaving a GPU
+    may choose — leaves on every lane `k` (1) the same accumulators `abuf[:, k]` and (2) the same memory cell `c[a, k]` for
+    every address `a` OUTSIDE the two scratch regions as `level_eval_cpu`. (Inside the scratch regions the last writer wins: the
+    orders differ there, and no row reads them — `no_row_reads_scratch`.) No per-level footprint hypothesis remains. -/
+theorem level_threads_any_order (p : MapIn) (hc : p.check = none) (hmin : 2 ≤ p.capsMin)
+    (delay : Nat → Bool → Bool → Int) (ops : List AOp) (hops : ops.map (·.op) = p.ops)
+    (opStart opStop sims : Nat) (hstop : opStop ≤ p.ops.length) (hlev : p.oneLevelB opStart opStop = true)
+    (l : List (Nat × Nat)) (hl : l.Perm (Grid.cpuLoop sims (opStop - opStart))) (S : Nat → LaneSt) (k : Nat) :
+    (Grid.runLanes (evalWork (evWave (fun _ => ⟨delay, p.cap⟩) p.loc) ops opStart) l S k).ab =
+      (cpuLevel (evWave (fun _ => ⟨delay, p.cap⟩) p.loc) ops opStart opStop 0 sims S k).ab ∧
+    ∀ a, ¬ scrAddr p.loc p.cap p.ix.tmp p.ix.tmp2 a →
+      (Grid.runLanes (evalWork (evWave (fun _ => ⟨delay, p.cap⟩) p.loc) ops opStart) l S k).c a =
+        (cpuLevel (evWave (fun _ => ⟨delay, p.cap⟩) p.loc) ops opStart opStop 0 sims S k).c a :=
+  MapSound.level_any_order_of_check p hc hmin delay ops hops opStart opStop sims hstop hlev l hl S k
+
+/-- the rows between two neighbouring entries `a < b` of `level_starts` (no entry strictly between `a` and `b`: e.g.
+    `(level_starts[i], level_stops[i])`) lie in one level -/
+theorem oneLevelB_of_starts (p : MapIn) (a b : Nat) (h : ∀ t ∈ p.starts, t ≤ a ∨ b ≤ t) : p.oneLevelB a b = true :=
+  MapSound.oneLevelB_of_gap p a b h
+
+/-- **… ALL circuits, no per-instance certificate**: the same for the tables the `SimOps` model builds (`simopsMap`, tied to the
+    real `ops` / `level_starts` / `c_locs` / `c_caps` by exact correspondence) — the certificate is `C08.simops_map_accepted`;
+    what remains are the domain predicates on the netlist and its order -/
+theorem level_threads_any_order_all_circuits (tbl : List PrefixRow) (net : Net) (order : List Nat) (strip : Bool)
+    (capsIn : Nat → Nat) (capsMin : Nat) (reuse : Bool) (hwf : net.wfB = true) (ho : orderOKB net order = true)
+    (hf : strip = true → forksOKB net order = true) (hr : readsDrivenB tbl net order = true) (hmin : 2 ≤ capsMin)
+    (delay : Nat → Bool → Bool → Int) (ops : List AOp)
+    (hops : ops.map (·.op) = (simopsMap tbl net order strip capsIn capsMin reuse).ops)
+    (opStart opStop sims : Nat) (hstop : opStop ≤ (simopsMap tbl net order strip capsIn capsMin reuse).ops.length)
+    (hlev : (simopsMap tbl net order strip capsIn capsMin reuse).oneLevelB opStart opStop = true)
+    (l : List (Nat × Nat)) (hl : l.Perm (Grid.cpuLoop sims (opStop - opStart))) (S : Nat → LaneSt) (k : Nat) :
+    let p := simopsMap tbl net order strip capsIn capsMin reuse
+    (Grid.runLanes (evalWork (evWave (fun _ => ⟨delay, p.cap⟩) p.loc) ops opStart) l S k).ab =
+      (cpuLevel (evWave (fun _ => ⟨delay, p.cap⟩) p.loc) ops opStart opStop 0 sims S k).ab ∧
+    ∀ a, ¬ scrAddr p.loc p.cap p.ix.tmp p.ix.tmp2 a →
+      (Grid.runLanes (evalWork (evWave (fun _ => ⟨delay, p.cap⟩) p.loc) ops opStart) l S k).c a =
+        (cpuLevel (evWave (fun _ => ⟨delay, p.cap⟩) p.loc) ops opStart opStop 0 sims S k).c a :=
+  level_threads_any_order _ (simopsMap_accepted tbl net order strip capsIn capsMin reuse hwf ho hf hr (by omega)) hmin delay ops hops
+    opStart opStop sims hstop hlev l hl S k
+
+/-- **… EVERY level of EVERY circuit**: level `i` of the model's `level_starts` — rows `level_starts[i] … level_stops[i] - 1`
+    (`level_stops[i]` = the next entry, or the number of rows for the last level): no hypothesis about the row range remains
+    (`StartsOK` of the model's table is part of `C08.simops_program_facts`) -/
+theorem level_threads_any_order_every_level (tbl : List PrefixRow) (net : Net) (order : List Nat) (strip : Bool)
+    (capsIn : Nat → Nat) (capsMin : Nat) (reuse : Bool) (hwf : net.wfB = true) (ho : orderOKB net order = true)
+    (hf : strip = true → forksOKB net order = true) (hr : readsDrivenB tbl net order = true) (hmin : 2 ≤ capsMin)
+    (delay : Nat → Bool → Bool → Int) (ops : List AOp)
+    (hops : ops.map (·.op) = (simopsMap tbl net order strip capsIn capsMin reuse).ops)
+    (i : Nat) (hi : i < (simopsMap tbl net order strip capsIn capsMin reuse).starts.length) (sims : Nat)
+    (l : List (Nat × Nat)) (S : Nat → LaneSt) (k : Nat) :
+    let p := simopsMap tbl net order strip capsIn capsMin reuse
+    let opStart := p.starts[i]
+    let opStop := p.starts.getD (i + 1) p.ops.length
+    l.Perm (Grid.cpuLoop sims (opStop - opStart)) →
+    (Grid.runLanes (evalWork (evWave (fun _ => ⟨delay, p.cap⟩) p.loc) ops opStart) l S k).ab =
+      (cpuLevel (evWave (fun _ => ⟨delay, p.cap⟩) p.loc) ops opStart opStop 0 sims S k).ab ∧
+    ∀ a, ¬ scrAddr p.loc p.cap p.ix.tmp p.ix.tmp2 a →
+      (Grid.runLanes (evalWork (evWave (fun _ => ⟨delay, p.cap⟩) p.loc) ops opStart) l S k).c a =
+        (cpuLevel (evWave (fun _ => ⟨delay, p.cap⟩) p.loc) ops opStart opStop 0 sims S k).c a := by
+  intro p opStart opStop hl
+  have hs := MapSound.oneLevel_of_startsOK p (C08.simops_program_facts tbl net order strip capsIn capsMin reuse hwf ho hf hr).starts i hi
+  exact level_threads_any_order_all_circuits tbl net order strip capsIn capsMin reuse hwf ho hf hr hmin delay ops hops
+    opStart opStop sims hs.2 hs.1 l hl S k
+
+/-! non-vacuity: two inputs behind three-way forks, `AND2` and `OR2` with UNCONNECTED outputs (both write the scratch slot 10)
+and `XOR2` driving the output — one level (rows 8, 9, 10 without `strip_forks`, rows 2, 3, 4 with it) holds two scratch writers -/
+def scrNet : Net :=
+  { nodes := #[⟨"input", [], [some 0]⟩, ⟨"input", [], [some 1]⟩, ⟨"__fork__", [some 0], [some 2, some 3, some 4]⟩,
+               ⟨"__fork__", [some 1], [some 5, some 6, some 7]⟩, ⟨"AND2", [some 2, some 5], []⟩, ⟨"OR2", [some 3, some 6], []⟩,
+               ⟨"XOR2", [some 4, some 7], [some 8]⟩, ⟨"output", [some 8], []⟩],
+    lines := #[⟨0, 0, 2, 0⟩, ⟨1, 0, 3, 0⟩, ⟨2, 0, 4, 0⟩, ⟨2, 1, 5, 0⟩, ⟨2, 2, 6, 0⟩, ⟨3, 0, 4, 1⟩, ⟨3, 1, 5, 1⟩, ⟨3, 2, 6, 1⟩, ⟨6, 0, 7, 0⟩],
+    io := [0, 1, 7] }
+def scrOrder : List Nat := [0, 1, 2, 3, 4, 5, 6, 7]
+def scrMap (strip : Bool) : MapIn := simopsMap Gen.kindPrefixes scrNet scrOrder strip (fun _ => 4) 4 true
+theorem scr_hyps : scrNet.wfB = true ∧ orderOKB scrNet scrOrder = true ∧ forksOKB scrNet scrOrder = true ∧
+    readsDrivenB Gen.kindPrefixes scrNet scrOrder = true := by decide +kernel
+
+example : ((scrMap false).ops.drop 8).map (·.out) = [10, 10, 8] ∧ scrNet.idx.tmp = 10 ∧ (scrMap false).starts = [0, 2, 8] ∧
+    (scrMap false).oneLevelB 8 11 = true ∧ (scrMap false).ops.length = 11 ∧ (scrMap false).scratchClashLevels = 1 ∧
+    (scrMap false).levelsIndepB = true ∧
+    -- the condition of the former theorem fails on the two scratch writers
+    opsIndepB (scrMap false).loc (scrMap false).cap ((scrMap false).ops.getD 8 default) ((scrMap false).ops.getD 9 default) = false ∧
+    ((scrMap true).ops.drop 2).map (·.out) = [10, 10, 8] ∧ (scrMap true).starts = [0, 2] ∧ (scrMap true).oneLevelB 2 5 = true ∧
+    (scrMap true).levelsIndepB = true := by decide +kernel
+
+/-- the nine threads (3 lanes × rows 8, 9, 10) of that level in a scrambled order, any accumulation controls -/
+example (delay : Nat → Bool → Bool → Int) (ctl : OpRow → AOp) (hctl : ∀ o, (ctl o).op = o) (S : Nat → LaneSt) (k : Nat) :=
+  level_threads_any_order_all_circuits Gen.kindPrefixes scrNet scrOrder false (fun _ => 4) 4 true scr_hyps.1 scr_hyps.2.1
+    (fun _ => scr_hyps.2.2.1) scr_hyps.2.2.2 (by decide) delay ((scrMap false).ops.map ctl)
+    (by rw [List.map_map]; conv => rhs; rw [← List.map_id (simopsMap _ _ _ _ _ _ _).ops]
+        exact List.map_congr_left (fun o _ => hctl o))
+    8 11 3 (by decide +kernel) (by decide +kernel)
+    [(2, 1), (0, 0), (1, 2), (2, 0), (0, 2), (1, 0), (0, 1), (2, 2), (1, 1)] (by decide) S k
+
+/-- … and as level 2 (the third) of the model's table, no row-range hypotheses -/
+example (delay : Nat → Bool → Bool → Int) (ctl : OpRow → AOp) (hctl : ∀ o, (ctl o).op = o) (sims : Nat) (l : List (Nat × Nat))
+    (S : Nat → LaneSt) (k : Nat) :=
+  level_threads_any_order_every_level Gen.kindPrefixes scrNet scrOrder false (fun _ => 4) 4 true scr_hyps.1 scr_hyps.2.1
+    (fun _ => scr_hyps.2.2.1) scr_hyps.2.2.2 (by decide) delay ((scrMap false).ops.map ctl)
+    (by rw [List.map_map]; conv => rhs; rw [← List.map_id (simopsMap _ _ _ _ _ _ _).ops]
+        exact List.map_congr_left (fun o _ => hctl o))
+    2 (by decide +kernel) sims l S k
+
+end Threads
 
 /-- accumulated switching activity is the same for every thread order (addition commutes) -/
 theorem abuf_any_order (ab : Nat → Int) (cs cs' : List Wave.Contrib) (h : cs.Perm cs') :
